@@ -81,6 +81,7 @@ def run(ctx, rep):
         check_lookup(crate, rep, cfg)
         check_in(crate, rep, cfg)
         check_concat(crate, rep, cfg)
+        check_attr_push(crate, rep, cfg)
         # "exactly one level of undefined" in the fused path instructions (shared with C09)
         from props import c09
         c09.check_fused_load(crate, crate.one("vm::interpreter::VirtualMachine::<'tera>::interpret"), rep, cfg)
@@ -547,3 +548,40 @@ def check_concat(crate, rep, cfg):
         ok = ok and bool(ls)
     rep.add("C02.CONCAT", "C02.CONCAT:vm:always-a-built-string", ok, vm.where(pushes[0][0]) if pushes else vm.where(0), "the StrConcat arm pushes Value::from(<String built from both operands>) "
             "on every path" + ("" if ok else " — VIOLATED: " + why))
+
+
+def check_attr_push(crate, rep, cfg):
+    """C02.LOOKUP — `a.b` / `a?.b` push the attribute found, or `undefined` (missing attribute; `?.` on a none / undefined base) — never the
+    base that was popped (a none base handed back makes `a?.b` none instead of undefined: it prints, it "is defined")."""
+    from props.c03 import vm_arm
+    vm = crate.one("vm::interpreter::VirtualMachine::<'tera>::interpret")
+    tr = Tracer(vm, transparent={"std::clone::Clone::clone", "std::option::Option::<&T>::cloned", "std::option::Option::<T>::unwrap_or_else", "std::option::Option::<T>::unwrap_or"})
+    # the two opcodes share one arm (`LoadAttr(attr) | LoadAttrOpt(attr)`): its blocks are those reachable from either variant edge and
+    # from no other opcode's edge
+    from props.c09 import variant_switches
+    heads = frozenset(bb for bb, t in find_calls(vm, ["parsing::instructions::Chunk::get"]))
+    reg = set()
+    for sb, listed in variant_switches(vm, crate, "instructions::Instruction"):
+        if "LoadAttr" in listed and len(listed) > 8:
+            mine = set()
+            for v in ("LoadAttr", "LoadAttrOpt"):
+                if v in listed:
+                    mine |= vm.reach_from(listed[v], removed_blocks=heads | {sb})
+            other = set()
+            for v, tgt in listed.items():
+                if v not in ("LoadAttr", "LoadAttrOpt") and tgt not in (listed.get("LoadAttr"), listed.get("LoadAttrOpt")):
+                    other |= vm.reach_from(tgt, removed_blocks=heads | {sb})
+            reg |= mine - other
+    pushes = [(bb, t) for bb, t in vm.calls(sorted(reg)) if callee_def(t).endswith("stack::Stack::push")]
+    ok = len(pushes) >= 2
+    why = "%d pushes found in the arm" % len(pushes)
+    for bb, t in pushes:
+        for l in tr.operand(t["args"][1]):
+            if l.kind == "cycle":
+                continue
+            good = l.kind == "call" and (l.detail[0].endswith("value::Value::get_attr") or l.detail[0].endswith("value::Value::undefined"))
+            good = good or (l.kind == "const" and "undefined" in str(l.detail))
+            if not good:
+                ok, why = False, "a pushed value comes from %s" % leaf_str(l)
+    rep.add("C02.LOOKUP", "C02.LOOKUP:LoadAttr:attribute-or-undefined", ok, vm.where(pushes[0][0]) if pushes else vm.where(0), "the LoadAttr / LoadAttrOpt arm pushes get_attr's answer or "
+            "Value::undefined(), never the popped base" + ("" if ok else " — VIOLATED: " + why))
